@@ -111,6 +111,28 @@ harness!(
     leak(schema);
 });
 
+harness!(
+    /// union [long, null] (null is NOT the first branch): the bare Null and Union(1, Null) must both
+    /// be written as branch index 1; Union(0, Long(n)) as index 0 + n.
+    union_null_not_first, unwind = 12, {
+    let schema = union(vec![Schema::Long, Schema::Null]);
+    let n = any_i16() as i64;
+    let mut canon = [0u8; 11];
+    let mut num = [0u8; 10];
+    let nl = spec::enc_long(n, &mut num);
+    canon[0] = 0;
+    let mut i = 0;
+    while i < nl {
+        canon[1 + i] = num[i];
+        i += 1;
+    }
+    contract(&Value::Null, &schema, &[2], 1);
+    contract(&Value::Union(1, Box::new(Value::Null)), &schema, &[2], 1);
+    contract(&Value::Union(0, Box::new(Value::Long(n))), &schema, &canon, 1 + nl);
+    contract(&Value::Union(0, Box::new(Value::Null)), &schema, &canon, 1 + nl);
+    leak(schema);
+});
+
 // ---- witnesses of recorded findings (expected to fail on the unchanged tree; see known_findings.json)
 
 harness!(
@@ -154,6 +176,7 @@ pub const HARNESSES: &[(&str, fn())] = &[
     ("c07::enum_schema", enum_schema::body),
     ("c07::fixed_schema_", fixed_schema_::body),
     ("c07::union_explicit", union_explicit::body),
+    ("c07::union_null_not_first", union_null_not_first::body),
     ("c07::finding_bare_value_in_union", finding_bare_value_in_union::body),
     ("c07::finding_float_for_double", finding_float_for_double::body),
 ];
